@@ -45,6 +45,26 @@ def failure_edges(fn):
     return starts
 
 
+def trace_lists_every_frame(F, rep, rule="C17.trace-complete"):
+    """"... lists exactly the functions and methods active": the printer of the call stack (<Stack as Display>::fmt) writes the innermost frame and
+    then one line per remaining frame - one walk over one slice of the frame vector.  A printer that cuts the vector into pieces (split_at, take,
+    skip, windows, chunks: "the 24 innermost, ... N more ..., the 24 outermost") leaves active functions out of a deep trace."""
+    fm = [g for g in F.crates["bytecode"].fns if "stack::Stack as core::fmt::Display" in g.path and g.kind != "Closure"]
+    if len(fm) != 1:
+        raise AnchorMissing("<Stack as Display>::fmt")
+    g = fm[0]
+    CUTS = ("::split_at", "::split_at_mut", "::split_first", "::split_last", "::take", "::skip", "::step_by", "::take_while", "::skip_while", "::windows",
+            "::chunks", "::truncate", "::drain", "::first", "::nth", "::filter", "::dedup", "::dedup_by_key", "::min", "::max")
+    bodies = [g] + F.closures_of(g)
+    cuts = sorted({mir.short(c.callee()) for b in bodies for c in b.calls() if mir.strip_generics(c.callee()).endswith(CUTS)})
+    walks = [c for c in g.calls() if mir.short(c.callee()).endswith(("]::iter", "IntoIterator>::into_iter"))]
+    nexts = {c.bb for c in g.calls() if c.matches("core::iter::traits::iterator::Iterator::next")}
+    st = "ok" if walks and len(nexts) == 1 and not cuts else "violated"
+    rep.ob(rule, "the trace printer walks the frames once, whole", st,
+           "" if st == "ok" else ("%d frame loops, cutting calls %s: frames of a deep call stack are left out of the trace (a failure below ~50 nested calls "
+                                  "prints `... N more ...` for the middle of the stack)" % (len(nexts), cuts)), g.span, fn=g.path, key=rule)
+
+
 def failure_reaches_the_exit_status(F, rep, rule="C17.exit-status"):
     """"... and exits with a failure status": the interpreter thread hands `main` the program's result (`Result<(), anyhow::Error>`, alone or inside
     the payload it returns); main turns an Err into its own Err - and so into a non-zero exit - with `?`.  After a join of such a thread, every path to
@@ -75,6 +95,7 @@ def run(ctx, rep):
     rep.assume("the rendered text of the trace is not decided; frames are identified by the push/pop calls")
 
     failure_reaches_the_exit_status(F, rep)
+    trace_lists_every_frame(F, rep)
     # ---- (b) Function::run ------------------------------------------------------------------------------------
     r = need(F, "bytecode::function::Function::run")
     ext = r.calls_to("bytecode::stack::Stack::extend")
